@@ -1317,31 +1317,41 @@ pub fn pinned_capture_mate_family(rng: &mut Rng, shard: u64, nshards: u64, out: 
                     if idx % nshards != shard {
                         continue;
                     }
-                    for attempt in 0..6 {
-                        let own = if attempt % 2 == 0 { Kind::Q } else if diagonal { Kind::B } else { Kind::R };
-                        let pinner = if rng.chance(1, 2) { Kind::Q } else if diagonal { Kind::B } else { Kind::R };
-                        let mut p = Position::empty();
-                        p.turn = me;
-                        p.board[k as usize] = Some((me, Kind::K));
-                        p.board[b as usize] = Some((me, own));
-                        p.board[sq_s as usize] = Some((opp, pinner));
-                        let ek = rng.below(64) as u8;
-                        if p.board[ek as usize].is_some() || !aligned(sq_s, ek) {
-                            continue;
-                        }
-                        let ek_diag = file_of(ek) != file_of(sq_s) && rank_of(ek) != rank_of(sq_s);
-                        if (own == Kind::B && !ek_diag) || (own == Kind::R && ek_diag) {
-                            continue;
-                        }
-                        p.board[ek as usize] = Some((opp, Kind::K));
-                        let m = Mv::new(b, sq_s);
-                        if p.chess_root_ok().is_err() || !p.is_legal(m) || !p.apply(m).in_check() {
-                            continue;
-                        }
-                        let valid = |x: &Position| x.chess_root_ok().is_ok();
-                        if let Some(mated) = mate_maker(rng, &p, m, &valid) {
-                            out.push(Crafted { family: "pinned-piece-captures-pinner-mate", pre: mated, moves: vec![] });
-                            break;
+                    // every geometry must get its mate whatever the seed: the enemy king squares are
+                    // tried systematically (from a seeded starting point), both kinds of pinned piece,
+                    // until the mate maker succeeds (at most 16 calls of it per geometry)
+                    let start = rng.below(64) as u8;
+                    let mut maker_calls = 0;
+                    'geometry: for step in 0..64u8 {
+                        let ek = (start + step) % 64;
+                        for own in [Kind::Q, if diagonal { Kind::B } else { Kind::R }] {
+                            let pinner = if (step + own as u8) % 2 == 0 { Kind::Q } else if diagonal { Kind::B } else { Kind::R };
+                            let mut p = Position::empty();
+                            p.turn = me;
+                            p.board[k as usize] = Some((me, Kind::K));
+                            p.board[b as usize] = Some((me, own));
+                            p.board[sq_s as usize] = Some((opp, pinner));
+                            if p.board[ek as usize].is_some() || !aligned(sq_s, ek) {
+                                continue;
+                            }
+                            let ek_diag = file_of(ek) != file_of(sq_s) && rank_of(ek) != rank_of(sq_s);
+                            if (own == Kind::B && !ek_diag) || (own == Kind::R && ek_diag) {
+                                continue;
+                            }
+                            p.board[ek as usize] = Some((opp, Kind::K));
+                            let m = Mv::new(b, sq_s);
+                            if p.chess_root_ok().is_err() || !p.is_legal(m) || !p.apply(m).in_check() {
+                                continue;
+                            }
+                            let valid = |x: &Position| x.chess_root_ok().is_ok();
+                            maker_calls += 1;
+                            if let Some(mated) = mate_maker(rng, &p, m, &valid) {
+                                out.push(Crafted { family: "pinned-piece-captures-pinner-mate", pre: mated, moves: vec![] });
+                                break 'geometry;
+                            }
+                            if maker_calls >= 16 {
+                                break 'geometry;
+                            }
                         }
                     }
                 }
